@@ -297,12 +297,13 @@ def releaseAbsorbedKeysIdx (s : State) : Option (State × List Event) :=
 
 /-! ## `add_new_mapping`, `newly_press`, `newly_release`, `step`, `release_all` -/
 
-/-- `add_new_mapping`, second part: the `if is_action_mapping(m) { … }` block -/
+/-- `add_new_mapping`, second part: the `if produces_action_key(m) { … }` block (fix of D7:
+`produces_action_key` is `m.to.iter().any(is_action_key)`, an iterator, so the condition itself has no
+panic outcome; before the fix it was `is_action_mapping(m)`, an indexed access) -/
 def addPhase2Idx (s : State) (newKey : Key) (m : Mapping) : Option (State × List Event) :=
-  match isActionMappingIdx m with
-  | none => none
-  | some false => some (s, [])
-  | some true =>
+  match producesActionKey m with
+  | false => some (s, [])
+  | true =>
     match releaseActionMappingsIdx s with
     | none => none
     | some r1 =>
